@@ -26,7 +26,7 @@ ID = "C06"
 LEVEL = "exploration"
 RULE = (
     "programs = type{int,hex,float} x range{none,lit,lit-if-C,sym-bounds} x default{fallback,none,symbol,out-of-range} x "
-    "indirect{none,set,set-out-of-range,set-default} x prompt{plain,if V}; inputs = per-type alphabet incl. malformed classes x "
+    "indirect{none,set,set-out-of-range,set-default,set-default-out-of-range} x prompt{plain,if V}; inputs = per-type alphabet incl. malformed classes x "
     "route{set_value, sdkconfig line, server handle_set} x all values of C,V,LO,D; distinct_nontrivial = distinct (program, "
     "input class, route, resulting value vector) where the input was malformed, out of range, or re-formatted."
 )
@@ -57,7 +57,7 @@ HEX_RE = re.compile(r"(0[xX])?[0-9a-fA-F]+\Z")
 def programs(tier: str) -> Iterator[Dict[str, Any]]:
     for t in ("int", "hex", "float"):
         lit = LIT[t]
-        for rng, dfl, ind, pc in itertools.product(("none", "lit", "cond", "sym"), ("fb", "none", "sym", "oor"), ("none", "set", "setoor", "wset"), (False, True)):
+        for rng, dfl, ind, pc in itertools.product(("none", "lit", "cond", "sym"), ("fb", "none", "sym", "oor"), ("none", "set", "setoor", "wset", "wsetoor"), (False, True)):
             if tier == "quick" and pc and (rng == "sym" or dfl == "sym"):
                 continue
             T = Cfg("T", t, prompt="t")
@@ -91,6 +91,8 @@ def programs(tier: str) -> Iterator[Dict[str, Any]]:
                     src.sets.append(("T", L(lit["setv"]), None))
                 elif ind == "setoor":
                     src.sets.append(("T", L(lit["setoor"]), None))
+                elif ind == "wsetoor":
+                    src.wsets.append(("T", L(lit["setoor"]), None))
                 else:
                     src.wsets.append(("T", L(lit["wset"]), None))
                 aux["SRC"] = src
